@@ -89,6 +89,11 @@ def map_rules(ctx, flavours):
             pv, cfg = F.prov(b), F.cfg(b)
             why = []
             cks = [(bi, t) for bi, t in calls_in(b) if _last(callee_name(t)) == 'contains_key']
+            own_contains = False
+            if not cks:
+                # the container's own contains() (decided above to be map.contains_key)
+                cks = [(bi, t) for bi, t in calls_in(b) if t.get('local') and t.get('res') == gp + '::contains']
+                own_contains = bool(cks)
             # accepted idiom: the membership test as a lookup, `match map.get(k) { Some(_) => .., None => .. }` / `.get(k).is_some()`
             via_get = False
             if not cks:
@@ -101,7 +106,7 @@ def map_rules(ctx, flavours):
                 cbi, ct = cks[0]
                 ibi, it = ins[0]
                 a = [deep_unwrap(pv.of_operand(x)) for x in ct['args']]
-                if a != [MAPF, key_of(P2_)]:
+                if a != ([P1_, key_of(P2_)] if own_contains else [MAPF, key_of(P2_)]):
                     why.append('membership test on %s' % [pretty(x) for x in a])
                 ia = [deep_unwrap(pv.of_operand(x)) for x in it['args']]
                 if ia != [MAPF, key_of(P2_), P2_]:
@@ -144,24 +149,79 @@ def map_rules(ctx, flavours):
                         out.append(Obl('MAP', b['q'], s['sp'], 'map field assignment', False, 'the member map is replaced'))
         # edge frame: a container stores handles; no container method adds or removes an edge of any node ("keeps the original",
         # "changes made through them are visible": the only changes are the caller's)
-        from .effects import mutating_calls
-        from .rules_edge import model
-        M = model(ctx, fl)
+        from .rules_edge import mutator_reach
+        reach_m, via = mutator_reach(ctx, fl)
         nfr = 0
         for q, b in sorted(F.bodies.items()):
             owner = F.bodies.get(re.sub(r'(::\{closure#\d+\})+$', '', q), b)
             if owner['impl_self_q'] != gp or (owner['impl_trait'] or '').startswith('serde::'):
                 continue
             nfr += 1
-            mc = mutating_calls(F, M, b)
-            out.append(Obl('MAP-frame', q, b['span'], 'no edge is added or removed by a container method', not mc,
-                           'ok' if not mc else 'reaches %s via %s' % (mc[0][1], ' -> '.join(mc[0][0]))))
+            bad = q in reach_m
+            chain = [q]
+            while bad and chain[-1] in via and len(chain) < 8 and via[chain[-1]] not in chain:
+                chain.append(via[chain[-1]])
+            out.append(Obl('MAP-frame', q, b['span'], 'no edge is added or removed by a container method', not bad,
+                           'ok' if not bad else 'reaches a list mutator: ' + ' -> '.join(chain)))
         if nfr == 0:
             out.append(Obl('MAP-frame', gp, '-', 'container methods present', False, 'anchor missing'))
     return out
 
 
 VIEWS = {'roots': 'is_root', 'leaves': 'is_leaf', 'orphans': 'is_orphan'}
+
+
+def _view_loop_form(F, b, fl, predname):
+    """`let mut v = Vec::new(); for n in map.values() { if n.pred() { v.push(n.clone()) } } v` -- returns the list of objections (empty = ok)"""
+    from .core import outcome_edges
+    pv, cfg = F.prov(b), F.cfg(b)
+    why = []
+    nexts = [(bi, t) for bi, t in calls_in(b) if callee_name(t).endswith('::next') and t['args']]
+    srcs = []
+    for bi, t in nexts:
+        it = deep_unwrap(pv.of_operand(t['args'][0]))
+        if _is_call(it, 'values', 1) and deep_unwrap(it[2][0]) == MAPF:
+            srcs.append((bi, t, 'values'))
+        elif (_is_call(it, 'iter', 1) or _is_call(it, 'into_iter', 1)) and deep_unwrap(it[2][0]) == MAPF:
+            srcs.append((bi, t, 'iter'))
+    if len(nexts) != 1 or len(srcs) != 1:
+        return ['%d iterator steps, %d of them over the member map' % (len(nexts), len(srcs))]
+    nbi, nt, kind = srcs[0]
+    se, ne = outcome_edges(F, b, nbi)
+    if se is None:
+        return ['the step over the members is not branched on']
+
+    def is_item(x):
+        x = deep_unwrap(x)
+        if kind == 'iter' and isinstance(x, tuple) and x and x[0] == 'f' and x[2] == '1':
+            x = deep_unwrap(x[1])
+        return isinstance(x, tuple) and x and x[0] == 'call' and x[1].endswith('::next') and len(x) > 3 and x[3] == nbi
+    preds = [(bi, t) for bi, t in calls_in(b) if t.get('local') and t.get('res', '').startswith(fl + '::node::Node::is_')]
+    if len(preds) != 1 or preds[0][1]['res'] != '%s::node::Node::%s' % (fl, predname) or not is_item(pv.of_operand(preds[0][1]['args'][0])):
+        return ['predicate calls: %s, expected one %s(member)' % ([t['res'].split('::')[-1] for _, t in preds], predname)]
+    pbi, pt = preds[0]
+    te, fe = cfg.bool_edges(pt['dst']['l'], pt['target'])
+    if te is None:
+        return ['the predicate is not branched on']
+    pushes = [(bi, t) for bi, t in calls_in(b) if _last(callee_name(t)) in ('push', 'push_back', 'insert', 'extend', 'append', 'push_front')]
+    if len(pushes) != 1 or _last(callee_name(pushes[0][1])) != 'push':
+        return ['%d insertions into the result' % len(pushes)]
+    ubi, ut = pushes[0]
+    if not is_item(pv.of_operand(ut['args'][1])):
+        why.append('pushes %s, not the member' % pretty(pv.of_operand(ut['args'][1])))
+    if not cfg.edge_dominates(te[0], te[1], ubi):
+        why.append('the push is not confined to the branch where %s holds' % predname)
+    rv = deep_unwrap(pv.of_local(0))
+    vec = deep_unwrap(pv.of_operand(ut['args'][0]))
+    if not (isinstance(rv, tuple) and rv and rv[0] == 'call' and _last(rv[1]) in ('new', 'with_capacity') and rv == vec):
+        why.append('returns %s, not the vector it fills' % pretty(rv))
+    # no early exit from the loop other than exhaustion
+    for bi2, bb in enumerate(b['blocks']):
+        if bb['cleanup'] or bi2 not in cfg.reach:
+            continue
+        if bb['term']['k'] == 'return' and not (ne and cfg.edge_dominates(ne[0], ne[1], bi2)):
+            why.append('returns before the members are exhausted')
+    return why
 
 
 def view_rules(ctx, flavours):
@@ -179,7 +239,9 @@ def view_rules(ctx, flavours):
             why = []
             ok = _is_call(t, 'collect', 1) and _is_call(t[2][0], 'cloned', 1) and _is_call(t[2][0][2][0], 'filter', 2) and _is_call(t[2][0][2][0][2][0], 'values', 1) and t[2][0][2][0][2][0][2][0] == MAPF
             if not ok:
-                why.append('not map.values().filter(..).cloned().collect(): ' + pretty(t))
+                lw = _view_loop_form(F, b, fl, predname)
+                if lw:
+                    why.append('neither map.values().filter(..).cloned().collect() (%s) nor the loop form (%s)' % (pretty(t)[:120], '; '.join(lw)))
             else:
                 clo = t[2][0][2][0][2][1]
                 ct = closure_result(F, clo, [P2_])
